@@ -173,6 +173,15 @@ void integral_case(const tensor_dims_t<trank>& dims, vt::Rng& rng, int64_t magni
 template <class tscalar, size_t trank>
 void shape_case(const tensor_dims_t<trank>& dims, vt::Rng& rng, bool exhaustive)
 {
+    // the buffer holds its own flat indices, which identify the elements a view addresses: one-byte scalars cannot hold more than 127
+    if constexpr (sizeof(tscalar) == 1)
+    {
+        if (::nano::size(dims) > 127)
+        {
+            shape_case<int16_t, trank>(dims, rng, exhaustive);
+            return;
+        }
+    }
     auto        root  = make_root<tscalar, trank>(dims);
     const auto& croot = root;
 
@@ -401,7 +410,20 @@ int main(int argc, char* argv[])
     const auto part = std::atoll(argv[3]), parts = std::atoll(argv[4]);
     const auto maxdim4 = std::atoll(argv[5]), maxdim5 = std::atoll(argv[6]), nrand = std::atoll(argv[7]);
 
-    exhaustive_shapes<int32_t>(rng, maxdim4, maxdim5, part, parts);
+    // the scalar type of the exhaustive sweep rotates with the part and the run seed (all ten types over the parts of one run)
+    switch ((part + std::atoll(argv[2]) / 1000) % 10)
+    {
+    case 0: exhaustive_shapes<int32_t>(rng, maxdim4, maxdim5, part, parts); break;
+    case 1: exhaustive_shapes<double>(rng, maxdim4, maxdim5, part, parts); break;
+    case 2: exhaustive_shapes<int8_t>(rng, maxdim4, maxdim5, part, parts); break;
+    case 3: exhaustive_shapes<uint64_t>(rng, maxdim4, maxdim5, part, parts); break;
+    case 4: exhaustive_shapes<float>(rng, maxdim4, maxdim5, part, parts); break;
+    case 5: exhaustive_shapes<int16_t>(rng, maxdim4, maxdim5, part, parts); break;
+    case 6: exhaustive_shapes<uint8_t>(rng, maxdim4, maxdim5, part, parts); break;
+    case 7: exhaustive_shapes<int64_t>(rng, maxdim4, maxdim5, part, parts); break;
+    case 8: exhaustive_shapes<uint16_t>(rng, maxdim4, maxdim5, part, parts); break;
+    default: exhaustive_shapes<uint32_t>(rng, maxdim4, maxdim5, part, parts); break;
+    }
     if (part == 0)
     {
         typed_shapes<int8_t>(rng);
